@@ -329,7 +329,7 @@ def run_case(case):
         mgr_in = mgr[0][2][-1][2] if mgr and mgr[0][2] else None
         inside = any(k["where"].startswith("sending_result:inside_message") for k in kills)
         verdict = V("hang", "%s after kills %s; calls so far %s; manager thread in %s; threads %s" % (
-            s.failed, kills, [(c.get("outcome"), c.get("t1")) for c in calls], mgr_in, str(st)[:700]),
+            s.failed, kills, [(c.get("outcome"), c.get("t1")) for c in calls], mgr_in, str([x for x in st if x[1] != "dead"])[:2500]),
             manager_in=mgr_in, victim_died_inside_result_message=inside,
             kill_point=kill_point if not inside else "sending_result")
     elif any(n == "main" for n, _, _ in s.thread_errors):
